@@ -222,3 +222,128 @@ Definition set_order_case (x : text_tables * list (val * bool) * list val) : lis
 
 Definition set_order_eqb (a b : list val * bool) : bool :=
   list_eqb val_eqb (fst a) (fst b) && Bool.eqb (snd a) (snd b).
+
+(* C14: instruction-level scripts over one set / one map (map values: int), observing the whole
+   collection after every instruction. Generic in the key type like the rest of the file. *)
+From Coq Require Import ZArith.
+
+Section Scripts.
+  Variable K : Type.
+  Variable eqb : K -> K -> bool.
+  Variable ltb : K -> K -> bool.
+
+  Inductive obs :=
+  | ONone                              (* the instruction leaves nothing but the collection *)
+  | OFail                              (* the instruction failed; the collection is unchanged *)
+  | OBool (b : bool)                   (* MEM *)
+  | ONat (n : nat)                     (* SIZE *)
+  | OOpt (o : option Z)                (* GET, GET_AND_UPDATE *)
+  | OKeys (l : list K)                 (* ITER { CONS } over a set, in iteration order *)
+  | OElts (l : list (K * Z)).          (* ITER { CONS } over a map *)
+
+  Inductive set_instr :=
+  | SIUpdate (v : K) (b : bool) | SIMem (v : K) | SISize | SIIter | SIPush (l : list K).
+
+  Inductive map_instr :=
+  | MIUpdate (k : K) (vo : option Z) | MIGetAndUpdate (k : K) (vo : option Z)
+  | MIGet (k : K) | MIMem (k : K) | MISize | MIIter
+  | MIMapAdd (c : Z)        (* MAP { CDR; PUSH int c; ADD } *)
+  | MIMapConst (c : Z)      (* MAP { DROP; PUSH int c } *)
+  | MIPush (l : list (K * Z)).
+
+  Definition set_instr_step (s : list K) (i : set_instr) : list K * obs :=
+    match i with
+    | SIUpdate v b => (set_update eqb ltb v b s, ONone)
+    | SIMem v => (s, OBool (set_contains eqb v s))
+    | SISize => (s, ONat (set_size s))
+    | SIIter => (s, OKeys s)
+    | SIPush l => match set_literal eqb ltb l with Ok s' => (s', ONone) | Reject => (s, OFail) end
+    end.
+
+  Fixpoint set_script (s : list K) (is : list set_instr) : list (list K * obs) :=
+    match is with
+    | [] => []
+    | i :: r => let so := set_instr_step s i in so :: set_script (fst so) r
+    end.
+
+  Definition map_instr_step (m : list (K * Z)) (i : map_instr) : list (K * Z) * obs :=
+    match i with
+    | MIUpdate k vo => (snd (map_update eqb ltb k vo m), ONone)
+    | MIGetAndUpdate k vo => let r := map_update eqb ltb k vo m in (snd r, OOpt (fst r))
+    | MIGet k => (m, OOpt (map_get eqb k m))
+    | MIMem k => (m, OBool (map_mem eqb k m))
+    | MISize => (m, ONat (map_size m))
+    | MIIter => (m, OElts m)
+    | MIMapAdd c => match map_map eqb ltb (fun _ v => (v + c)%Z) m with Ok m' => (m', ONone) | Reject => (m, OFail) end
+    | MIMapConst c => match map_map eqb ltb (fun _ _ => c) m with Ok m' => (m', ONone) | Reject => (m, OFail) end
+    | MIPush l => match map_literal eqb ltb l with Ok m' => (m', ONone) | Reject => (m, OFail) end
+    end.
+
+  Fixpoint map_script (m : list (K * Z)) (is : list map_instr) : list (list (K * Z) * obs) :=
+    match is with
+    | [] => []
+    | i :: r => let mo := map_instr_step m i in mo :: map_script (fst mo) r
+    end.
+
+  (* the history (Collections ops) an instruction stands for; observers stand for no op *)
+  Definition set_instr_op (i : set_instr) : option (set_op K) :=
+    match i with
+    | SIUpdate v b => Some (SUpdate v b)
+    | SIPush l => Some (SLiteral l)
+    | _ => None
+    end.
+
+  Definition map_instr_op (i : map_instr) : option (map_op K Z) :=
+    match i with
+    | MIUpdate k vo => Some (MUpdate k vo)
+    | MIGetAndUpdate k vo => Some (MGetAndUpdate k vo)
+    | MIMapAdd c => Some (MMap (fun _ v => (v + c)%Z))
+    | MIMapConst c => Some (MMap (fun _ _ => c))
+    | MIPush l => Some (MLiteral l)
+    | _ => None
+    end.
+
+  Fixpoint ops_of {I O} (f : I -> option O) (is : list I) : list O :=
+    match is with
+    | [] => []
+    | i :: r => match f i with Some o => o :: ops_of f r | None => ops_of f r end
+    end.
+End Scripts.
+
+Arguments ONone {K}. Arguments OFail {K}. Arguments OBool {K} b. Arguments ONat {K} n. Arguments OOpt {K} o.
+Arguments OKeys {K} l. Arguments OElts {K} l.
+Arguments SIUpdate {K} v b. Arguments SIMem {K} v. Arguments SISize {K}. Arguments SIIter {K}. Arguments SIPush {K} l.
+Arguments MIUpdate {K} k vo. Arguments MIGetAndUpdate {K} k vo. Arguments MIGet {K} k. Arguments MIMem {K} k.
+Arguments MISize {K}. Arguments MIIter {K}. Arguments MIMapAdd {K} c. Arguments MIMapConst {K} c. Arguments MIPush {K} l.
+Arguments set_instr_step {K} eqb ltb s i.
+Arguments set_script {K} eqb ltb s is.
+Arguments map_instr_step {K} eqb ltb m i.
+Arguments map_script {K} eqb ltb m is.
+Arguments set_instr_op {K} i.
+Arguments map_instr_op {K} i.
+
+(* ---- keys = Michelson values compared with pytezos' == and < *)
+
+Definition elt_eqb (a b : val * Z) : bool := val_eqb (fst a) (fst b) && Z.eqb (snd a) (snd b).
+
+Definition obs_eqb (a b : obs val) : bool :=
+  match a, b with
+  | ONone, ONone => true
+  | OFail, OFail => true
+  | OBool x, OBool y => Bool.eqb x y
+  | ONat x, ONat y => Nat.eqb x y
+  | OOpt x, OOpt y => option_eqb Z.eqb x y
+  | OKeys x, OKeys y => list_eqb val_eqb x y
+  | OElts x, OElts y => list_eqb elt_eqb x y
+  | _, _ => false
+  end.
+
+Definition set_script_case (x : text_tables * list (set_instr val)) : list (list val * obs val) :=
+  let T := texts_of (fst x) in set_script (py_eq T) (py_lt T) [] (snd x).
+Definition set_script_eqb : list (list val * obs val) -> list (list val * obs val) -> bool :=
+  list_eqb (fun a b => list_eqb val_eqb (fst a) (fst b) && obs_eqb (snd a) (snd b)).
+
+Definition map_script_case (x : text_tables * list (map_instr val)) : list (list (val * Z) * obs val) :=
+  let T := texts_of (fst x) in map_script (py_eq T) (py_lt T) [] (snd x).
+Definition map_script_eqb : list (list (val * Z) * obs val) -> list (list (val * Z) * obs val) -> bool :=
+  list_eqb (fun a b => list_eqb elt_eqb (fst a) (fst b) && obs_eqb (snd a) (snd b)).
